@@ -587,11 +587,88 @@ fn openings(ch: &mut Chooser, ctx: &mut Ctx) {
     dispatch(CONFIGS[ci], OpeningJob { ch, ctx, name });
 }
 
+
+// OUT-OF-DOMAIN FRAMES AT THEIR BOUNDARY MEMBERS
+// ------------------------------------------------------------------------------------------------
+// The frames of the protocol-sim proofs are small (short traces). The type also has members with
+// 255 columns, a Lagrange kernel frame of log2(trace length) + 1 = up to 32 evaluations (more than
+// 255 bytes from 8 evaluations of a 32-byte element on) and up to 255 constraint evaluations.
+
+fn ood_frame_of<E: FieldElement, H: ElementHasher<BaseField = E::BaseField>>(ch: &mut Chooser, ctx: &mut Ctx, name: &'static str) {
+    let width = [1usize, 2, 8, 127, 128, 255][ch.index("ood.width", 6)];
+    let main_w = 1 + ch.index("ood.mainw", width);
+    let lag_rows = [0usize, 0, 1, 4, 8, 9, 11, 16, 17, 21, 32][ch.index("ood.lagrange", 11)];
+    let evals_n = [1usize, 2, 8, 255][ch.index("ood.evals", 4)];
+    let salt = ch.u64("ood.salt");
+    let mut r = simcore::rng::Xoshiro::from_u64(salt);
+    let mut el = |r: &mut simcore::rng::Xoshiro| -> E {
+        match r.below(8) {
+            0 => E::ZERO,
+            1 => E::ZERO - E::ONE,
+            _ => crate::c05::rand_elem::<E>(r),
+        }
+    };
+    let cur: Vec<E> = (0..width).map(|_| el(&mut r)).collect();
+    let next: Vec<E> = (0..width).map(|_| el(&mut r)).collect();
+    let lag = if lag_rows == 0 { None } else { Some(air::LagrangeKernelEvaluationFrame::new((0..lag_rows).map(|_| el(&mut r)).collect())) };
+    let evals: Vec<E> = (0..evals_n).map(|_| el(&mut r)).collect();
+    let built = guard(|| {
+        let mut f = OodFrame::default();
+        f.set_trace_states::<E, H>(&air::proof::TraceOodFrame::new(cur.clone(), next.clone(), main_w, lag.clone()));
+        f.set_constraint_evaluations(&evals);
+        f
+    });
+    let frame = match built {
+        Ok(f) => f,
+        Err(p) => {
+            ctx.violation(format!("C12/OodFrame<{name}>/construction-panic {}", p.signature()), format!("{width} columns, {lag_rows} Lagrange evaluations, {evals_n} constraint evaluations: {}:{} {}", p.file, p.line, p.msg));
+            return;
+        },
+    };
+    if lag_rows > 0 && 1 + lag_rows * E::ELEMENT_BYTES > 255 {
+        ctx.probe("lagrange_kernel_frame_above_255_bytes");
+    }
+    check::<OodFrame>(ch, ctx, "OodFrame(boundary members)", &frame);
+    // and the frame must give back what was put in
+    // (the Lagrange kernel column counts as an auxiliary column whose evaluations travel apart)
+    let aux_w = width - main_w + (lag_rows > 0) as usize;
+    match guard(|| frame.clone().parse::<E>(main_w, aux_w, evals_n)) {
+        Ok(Ok((t, e))) => {
+            let same = t.current_row() == &cur[..] && t.next_row() == &next[..] && e == evals && t.lagrange_kernel_frame().map(|l| l.inner().to_vec()) == lag.as_ref().map(|l| l.inner().to_vec());
+            if !same {
+                ctx.violation(format!("C12/OodFrame<{name}>/parse-differs"), format!("{width} columns ({main_w} main), {lag_rows} Lagrange evaluations, {evals_n} constraint evaluations"));
+            }
+        },
+        Ok(Err(e)) => ctx.violation(
+            format!("C12/OodFrame<{name}>/parse-error {}", crate::pipe::variant_name(&format!("{:?}", e))),
+            format!("the frame built from {width} columns ({main_w} main), {lag_rows} Lagrange evaluations, {evals_n} constraint evaluations does not parse: {e}"),
+        ),
+        Err(p) => ctx.violation(format!("C12/OodFrame<{name}>/parse-panic {}", p.signature()), format!("{}:{} {}", p.file, p.line, p.msg)),
+    }
+}
+
+fn ood_frames(ch: &mut Chooser, ctx: &mut Ctx) {
+    type F62 = f62::BaseElement;
+    type F64 = f64::BaseElement;
+    type F128 = f128::BaseElement;
+    match ch.index("ood.type", 8) {
+        0 => ood_frame_of::<F62, Blake3_256<F62>>(ch, ctx, "f62"),
+        1 => ood_frame_of::<QuadExtension<F62>, Blake3_192<F62>>(ch, ctx, "quad<f62>"),
+        2 => ood_frame_of::<CubeExtension<F62>, Rp62_248>(ch, ctx, "cube<f62>"),
+        3 => ood_frame_of::<F64, Rp64_256>(ch, ctx, "f64"),
+        4 => ood_frame_of::<QuadExtension<F64>, Blake3_256<F64>>(ch, ctx, "quad<f64>"),
+        5 => ood_frame_of::<CubeExtension<F64>, RpJive64_256>(ch, ctx, "cube<f64>"),
+        6 => ood_frame_of::<F128, Sha3_256<F128>>(ch, ctx, "f128"),
+        _ => ood_frame_of::<QuadExtension<F128>, Blake3_256<F128>>(ch, ctx, "quad<f128>"),
+    }
+}
+
 fn scenario(_info: &RunInfo, ch: &mut Chooser, ctx: &mut Ctx) {
-    match ch.weighted("family", &[5, 4, 2, 1]) {
+    match ch.weighted("family", &[5, 4, 2, 1, 1]) {
         0 => primitives(ch, ctx),
         1 => algebra(ch, ctx),
         3 => openings(ch, ctx),
+        4 => ood_frames(ch, ctx),
         _ => {
             // every (field, hasher) pair: digest widths of 24, 31 and 32 bytes on the wire
             let cfg = gen_cfg(ch, true);
@@ -607,7 +684,7 @@ pub fn spec() -> CheckSpec {
         id: "C12",
         level: "exploration",
         build: "serial",
-        rule: "one run = one value of one serializable type (integers, the variable-length size encoding at 2^(7k)-1 / 2^(7k) / 2^(7k)+1, 127/128/129, 2^56, u64::MAX; Option, tuples, arrays, String incl. multi-byte characters, Vec / BTreeMap / BTreeSet at lengths 0, 1, 127..129, 255..257, nestings; elements of the three base fields and their quadratic / cubic extensions at 0, 1, p-1 and random; byte and element digests of all six hashers; FieldExtension; ProofOptions at every boundary tuple; TraceInfo with 255 columns, auxiliary segments with 0..255 random elements, lengths 2^3..2^31, 0 / 1 / 65534 / 65535 metadata bytes; Context; the node vectors of batch Merkle openings (serialize_nodes / deserialize) for all six hashers, depth 1..9, 1..255 positions; and Commitments, Queries, OodFrame, FriProof and whole Proofs produced by the protocol sim with every (field, hasher) pair incl. maximal query counts and remainders and the optional GKR proof absent / empty / 1 / 127..129 / 300..499 bytes) x a 0..8-byte foreign suffix x one chunking of the simulated byte source x one schedule of short / interrupted writes of the simulated sink. decode(encode(x)) == x and exactly the written bytes are consumed on SliceReader, std::io::Cursor and ReadAdapter; the sink receives to_bytes(x). Non-trivial = a non-maximal chunking or short write fired; distinct = distinct event-log digests.".into(),
+        rule: "one run = one value of one serializable type (integers, the variable-length size encoding at 2^(7k)-1 / 2^(7k) / 2^(7k)+1, 127/128/129, 2^56, u64::MAX; Option, tuples, arrays, String incl. multi-byte characters, Vec / BTreeMap / BTreeSet at lengths 0, 1, 127..129, 255..257, nestings; elements of the three base fields and their quadratic / cubic extensions at 0, 1, p-1 and random; byte and element digests of all six hashers; FieldExtension; ProofOptions at every boundary tuple; TraceInfo with 255 columns, auxiliary segments with 0..255 random elements, lengths 2^3..2^31, 0 / 1 / 65534 / 65535 metadata bytes; Context; the node vectors of batch Merkle openings (serialize_nodes / deserialize) for all six hashers, depth 1..9, 1..255 positions; out-of-domain frames built through the public API with 1..255 columns, a Lagrange kernel frame of 0..32 evaluations (above 255 bytes from 8 evaluations of a 32-byte element on) and 1..255 constraint evaluations, which must also parse back to what was put in; and Commitments, Queries, OodFrame, FriProof and whole Proofs produced by the protocol sim with every (field, hasher) pair incl. maximal query counts and remainders and the optional GKR proof absent / empty / 1 / 127..129 / 300..499 bytes) x a 0..8-byte foreign suffix x one chunking of the simulated byte source x one schedule of short / interrupted writes of the simulated sink. decode(encode(x)) == x and exactly the written bytes are consumed on SliceReader, std::io::Cursor and ReadAdapter; the sink receives to_bytes(x). Non-trivial = a non-maximal chunking or short write fired; distinct = distinct event-log digests.".into(),
         interleaving_measure: "distinct (value, suffix, source chunk boundaries, sink write boundaries) histories".into(),
         real: vec!["every Serializable / Deserializable impl listed in the rule", "SliceReader, Cursor impl, ReadAdapter, ByteWriter for std::io::Write"],
         stub: vec!["the byte source and the byte sink (SimRead / SimWrite)"],
